@@ -459,6 +459,16 @@ def rule_e(ck, R):
             rr = re.sub(r'#\d+', '#', rr)
             conds = tuple(re.sub(r'#\d+', '#', c) for c in conds)
             sig[mode].add((conds, effs, rr))
+    # honesty of the reported status: SUCCESS can only be what the area write reported; every path that stops before
+    # the write reports a failure code
+    SUCC = C(E.get('REG_ACCESS_SUCCESS'))
+    for p in ps:
+        if 'write' in classify(p) or p.end != 'return':
+            continue
+        code = dict(p.ret[2]).get('code') if p.ret is not None and p.ret[0] == 'struct' else None
+        if code is None or code == SUCC or not sym.is_c(code):
+            bad = bad or ('the path {%s} ends without writing but reports %s: the caller is told the value was stored'
+                          % ('; '.join(fmt(c) for c in p.cond_terms()[-2:])[:200], 'REG_ACCESS_SUCCESS' if code in (None, SUCC) else fmt(code)))
     ck.verdict(bad is None and nwrite >= 2, 'C01.e', 'register_setx:order', where,
                'init/handle checks -> [validate] -> can-write -> serialise -> write (tail); failures never after a write; written atoms are the serialised ones at (e->offset, rds_size[e->type])'
                if bad is None and nwrite >= 2 else (bad or 'write paths not found'))
@@ -492,13 +502,40 @@ def rule_e(ck, R):
                    'get reads (e->offset, rds_size[e->type]), the window set writes' if okg else 'get does not read (e->offset, rds_size[e->type])')
         # des applied to the atoms read, result written to the caller's value
         okd = False
+        okd_why = 'deserialiser is not applied to the atoms read / not into *v'
         for p in psg:
             rd = [e for e in p.effects if e.kind == 'icall' and e.name.endswith('read')]
             ds = [e for e in p.effects if e.kind == 'icall' and e.name.endswith('.des')]
             if rd and ds:
                 okd = ds[0].args[0] == rd[0].args[1] and ds[0].args[1] == ('v', 'v')
+        # honesty of the status: a failed area read is returned as it is, a failed decode is a failure code, and SUCCESS
+        # needs both to have succeeded
+        SUCC = C(R.E.get('REG_ACCESS_SUCCESS'))
+        for p in psg:
+            rd = [e for e in p.effects if e.kind == 'icall' and e.name.endswith('read')]
+            ds = [e for e in p.effects if e.kind == 'icall' and e.name.endswith('.des')]
+            if p.end != 'return' or not rd:
+                continue
+            r = p.ret
+            code = None
+            if r is not None and r[0] == 'struct':
+                code = dict(r[2]).get('code')
+                if code is None and r[1] == rd[0].result:
+                    code = ('fv', rd[0].result, 'code')
+            elif r is not None and strip_cast(r) == rd[0].result:
+                code = ('fv', rd[0].result, 'code')
+            if ds:
+                failed = any(c[0] == 'cmp' and c[1] == '==' and sym.contains(c[2], ds[0].result) and c[3] == C(0) for c in p.cond_terms())
+                if failed and not (code is not None and sym.is_c(code) and code != SUCC):
+                    okd = False
+                    okd_why = 'a value the deserialiser rejected is returned with status %s' % (fmt(code) if code else 'of the area read (SUCCESS)')
+            else:
+                rdfail = any(c[0] == 'cmp' and c[1] == '!=' and sym.contains(c[2], rd[0].result) and c[3] == SUCC for c in p.cond_terms())
+                if not rdfail or code != ('fv', rd[0].result, 'code'):
+                    okd = False
+                    okd_why = 'returns without decoding although the area read is not known to have failed'
         ck.verdict(okd, 'C01.e', 'register_get:decode', R.where('register_get'),
-                   'the atoms read are the ones deserialised into the caller\'s value' if okd else 'deserialiser is not applied to the atoms read / not into *v')
+                   'the atoms read are the ones deserialised into the caller\'s value; read failures returned, rejected decodes reported as failure' if okd else okd_why)
 
 
 def run(ck):
